@@ -65,12 +65,14 @@ impl Iterator {
     pub fn sibling(&mut self) -> (r: u64)
         requires old(self).wf(), old(self).index + 2 * old(self).factor <= 0x7fff_ffff_ffff_ffff
         ensures final(self).wf(), final(self).d@ == old(self).d@, r == final(self).index,
-            final(self).offset == (if old(self).offset % 2 == 0 { old(self).offset + 1 } else { old(self).offset - 1 })
+            final(self).offset == (if old(self).offset % 2 == 0 { old(self).offset + 1 } else { old(self).offset - 1 }),
+            final(self).index == (if old(self).offset % 2 == 0 { old(self).index + old(self).factor } else { old(self).index - old(self).factor })
     { unimplemented!() }
     #[verifier::external_body]
     pub fn parent(&mut self) -> (r: u64)
         requires old(self).wf(), old(self).d@ < 61, old(self).index + 2 * old(self).factor <= 0x7fff_ffff_ffff_ffff
-        ensures final(self).wf(), final(self).d@ == old(self).d@ + 1, final(self).offset == old(self).offset / 2, r == final(self).index
+        ensures final(self).wf(), final(self).d@ == old(self).d@ + 1, final(self).offset == old(self).offset / 2, r == final(self).index,
+            final(self).index == (if old(self).offset % 2 == 0 { old(self).index + old(self).factor / 2 } else { old(self).index - old(self).factor / 2 })
     { unimplemented!() }
     #[verifier::external_body]
     pub fn left_child(&mut self) -> (r: u64)
